@@ -32,8 +32,9 @@ def run_confidence(ctx, cfg, C, syms, pss, scores, descs=None, deduplication=Tru
     return pr
 
 
-def output_props(s, prefix, dedup, rollup, decoys, dest="/vfs/out", higher_is_better=True):
-    """Oracle of the statement over the result files of one collection."""
+def output_props(s, prefix, dedup, rollup, decoys, dest="/vfs/out", higher_is_better=True, tagfilter=None):
+    """Oracle of the statement over the result files of one collection. tagfilter: only the rows whose
+    PSMId starts with it belong to this collection (several collections written into the same files)."""
     import z3
     from symx import vfs, core
     from checks import spec
@@ -59,6 +60,8 @@ def output_props(s, prefix, dedup, rollup, decoys, dest="/vfs/out", higher_is_be
         out_rows = []
         for name, tab, is_t in files:
             recs = tab.to_dict(orient="records")
+            if tagfilter:
+                recs = [r for r in recs if str(r["PSMId"]).startswith(tagfilter)]
             prev = None
             for r in recs:
                 pid = r["PSMId"]
@@ -136,8 +139,15 @@ def sym_confidence(ctx, cfg):
         tb = traceback.extract_tb(ex.__traceback__)[-1]
         return PathOutcome([], inputs, None, "exc", note="%s:%s @%s:%d" % (type(ex).__name__, str(ex)[:60], os.path.basename(tb.filename), tb.lineno))
     props = []
-    for s, pre in zip(syms, prefixes):
-        props += output_props(s, pre, dedup, rollup, decoys)
+    for cid, (s, pre) in enumerate(zip(syms, prefixes)):
+        props += [("coll%d_%s" % (cid, n_), p_) for n_, p_ in output_props(s, pre, dedup, rollup, decoys, tagfilter=("c%d_" % cid) if cfg.get("combined") else None)]
+    if cfg.get("combined"):
+        # without prefixes the collections are appended to the same files: first collection's rows, then the second's
+        for p in vfs.listing():
+            if p.startswith("/vfs/out/targets.") or p.startswith("/vfs/out/decoys."):
+                ids = [str(x) for x in vfs.get(p)._c["PSMId"]]
+                tags = [x.split("_")[0] for x in ids]
+                props.append(("%s_collections_appended_in_order" % os.path.basename(p), z3.BoolVal(tags == sorted(tags) and all(t in ("c0", "c1") for t in tags))))
     left = [p for p in vfs.listing() if p.startswith("/vfs/out/") and ("scores_metadata" in p or os.path.basename(p).split(".")[0] in ("psms", "peptides", "modifiedpeptides"))]
     props.append(("no_intermediate_file_remains: %s" % left, z3.BoolVal(not left)))
     return PathOutcome(props, inputs, None)
@@ -269,7 +279,9 @@ def harnesses(tier):
         add("n=2,2 collections with prefixes", dict(n=2, collections=2, prefixes=["a", "b"], dedup=True, rollup=True, decoys=True))
         add("n=3,chunk symbolic,dedup+rollup", dict(n=3, sym_chunk=True, dedup=True, rollup=True, decoys=True))
         add("n=2,extra level,pm1 labels", dict(n=2, extra_level=True, labels="pm1", dedup=True, rollup=True, decoys=True))
+        add("n=2,2 collections into the same files", dict(n=2, collections=2, prefixes=[None, None], combined=True, dedup=True, rollup=True, decoys=True))
     else:
+        add("n=2+2,2 collections into the same files,all switches", dict(n=2, collections=2, prefixes=[None, None], combined=True), 0.01)
         add("n=4,dedup+rollup+decoys", dict(n=4, dedup=True, rollup=True, decoys=True), 0.01)
         add("n=4,no dedup,rollup", dict(n=4, dedup=False, rollup=True, decoys=True), 0.01)
         add("n=3,all switches,chunk symbolic", dict(n=3, sym_chunk=True), 0.01)
@@ -318,7 +330,7 @@ def conc_levels(df, scores, dedup, rollup, higher_is_better=True):
     pass
 
 
-def check_outputs(df, scores, outdir, prefix, dedup, rollup, decoys, extra, higher_is_better=True):
+def check_outputs(df, scores, outdir, prefix, dedup, rollup, decoys, extra, higher_is_better=True, combined=False):
     import pandas as pd
     from fractions import Fraction
     from checks import spec
@@ -343,6 +355,8 @@ def check_outputs(df, scores, outdir, prefix, dedup, rollup, decoys, extra, high
             prev = None
             for _, r in t.iterrows():
                 if r["PSMId"] not in ids:
+                    if combined:
+                        continue  # row of another collection written into the same file
                     return "%s holds unknown PSM %r" % (os.path.basename(path), r["PSMId"])
                 i = ids.index(r["PSMId"])
                 if lab[i] != is_t:
@@ -419,9 +433,19 @@ def real_confidence(cfg, inp):
         finally:
             C.CONFIDENCE_CHUNK_SIZE, C.peps_from_scores = old
         for cid, (df, sc) in enumerate(zip(dfs, scs)):
-            v = check_outputs(df, sc, out, inp["prefixes"][cid], bool(inp["deduplication"]), bool(inp["do_rollup"]), bool(inp["decoys"]), bool(inp["collections"][cid].get("extra")))
+            v = check_outputs(df, sc, out, inp["prefixes"][cid], bool(inp["deduplication"]), bool(inp["do_rollup"]), bool(inp["decoys"]), bool(inp["collections"][cid].get("extra")),
+                              combined=bool(cfg.get("combined")))
             if v:
-                return dict(violation=v)
+                return dict(violation="collection %d: %s" % (cid, v))
+        if cfg.get("combined"):
+            import pandas as pd
+            allids = {x for d_ in dfs for x in d_["SpecId"]}
+            for f in sorted(os.listdir(out)):
+                if f.startswith("targets.") or f.startswith("decoys."):
+                    got = list(pd.read_csv(os.path.join(out, f), sep="\t")["PSMId"])
+                    tags = [str(x).split("_")[0] for x in got]
+                    if any(x not in allids for x in got) or tags != sorted(tags):
+                        return dict(violation="%s: rows of the collections are not appended collection by collection: %s" % (f, got))
         left = [f for f in os.listdir(out) if "scores_metadata" in f or f.split(".")[0] in ("psms", "peptides", "modifiedpeptides")]
         if left:
             return dict(violation="intermediate files remain: %s" % left)
